@@ -110,20 +110,20 @@ enum Op : unsigned {
 constexpr OpInfo info(Op op)
 {
     switch (op) {
-    case vEmplaceI: return {"emplace<I>(args)", aJ | aV};
-    case vEmplaceT: return {"emplace<T>(args)", aJ | aV};
-    case vAssignAltLv: return {"operator=(T const&) converting", aJ | aV};
-    case vAssignAltRv: return {"operator=(T&&) converting", aJ | aV};
-    case vAssignForeign: return {"operator=(F&&) converting from a non-alternative type", aQ4 | aV};
-    case vAssignVarConst: return {"operator=(variant const&)", aJ | aV};
-    case vAssignVarRv: return {"operator=(variant&&)", aJ | aV};
-    case vSelfCopyAssign: return {"operator=(self const&)", 0};
-    case vAssignOwnAlt: return {"operator=(own active alternative)", 0};
-    case vSwapAdl: return {"swap(a,b)", aJ | aV};
-    case vSwapMember: return {"swap(other)", aJ | aV};
-    case vSwapSelf: return {"swap(self,self)", 0};
+    case vEmplaceI: return {"emplace<I>(args)", aJ | aV | aM};
+    case vEmplaceT: return {"emplace<T>(args)", aJ | aV | aM};
+    case vAssignAltLv: return {"operator=(T const&) converting", aJ | aV | aM};
+    case vAssignAltRv: return {"operator=(T&&) converting", aJ | aV | aM};
+    case vAssignForeign: return {"operator=(F&&) converting from a non-alternative type", aQ4 | aV | aM};
+    case vAssignVarConst: return {"operator=(variant const&)", aJ | aV | aM};
+    case vAssignVarRv: return {"operator=(variant&&)", aJ | aV | aM};
+    case vSelfCopyAssign: return {"operator=(self const&)", aM};
+    case vAssignOwnAlt: return {"operator=(own active alternative)", aM};
+    case vSwapAdl: return {"swap(a,b)", aJ | aV | aM};
+    case vSwapMember: return {"swap(other)", aJ | aV | aM};
+    case vSwapSelf: return {"swap(self,self)", aM};
     case vCopyCtor: return {"ctor(variant const&)", 0};
-    case vMoveCtor: return {"ctor(variant&&)", 0};
+    case vMoveCtor: return {"ctor(variant&&)", aM};
     case vCtorAltLv: return {"ctor(T const&) converting", aJ | aV};
     case vCtorAltRv: return {"ctor(T&&) converting", aJ | aV};
     case vCtorInPlaceIndex: return {"ctor(in_place_index<I>,args)", aJ | aV};
@@ -528,6 +528,10 @@ constexpr Table make_table()
 struct VarSubject {
     static constexpr Table table   = make_table();
     static constexpr unsigned kOps = table.n;
+    static bool is_mutator(unsigned w) { return (info(table.ops[w]).args & aM) != 0; }
+    static constexpr Mutators<Table, OpInfo (*)(Op)> muts{table, &info};
+    static unsigned n_mutators() { return muts.n; }
+    static unsigned mutator_at(unsigned k) { return muts.idx[k]; }
 
     VarWorld<Std> s;
     VarWorld<Etl> e;
